@@ -258,8 +258,9 @@ Proof.
         specialize (IH v ip (Node KTd cbs cdv cnm ces) bs dv Hcc Hok).
         destruct (set_tuple (k2 :: rest') v ip (Node KTd cbs cdv cnm ces)) as [c' o]. cbn [fst] in *.
         apply coh_node_iff. repeat split; auto using coh_ents_aset.
-      * (* missing: created empty first *)
-        specialize (IH v INo (Node KTd bs dv nm []) bs dv (coh_fresh _ _ _ _ H3) Hok).
-        destruct (set_tuple (k2 :: rest') v INo (Node KTd bs dv nm [])) as [c' o]. cbn [fst] in *.
-        apply coh_node_iff. repeat split; auto using coh_ents_aset.
+      * (* missing: created empty first (set_ raises instead) *)
+        destruct ip; try exact Hall;
+        specialize (IH v INo (Node KTd bs dv nm []) bs dv (coh_fresh _ _ _ _ H3) Hok);
+        destruct (set_tuple (k2 :: rest') v INo (Node KTd bs dv nm [])) as [c' o]; cbn [fst] in *;
+        apply coh_node_iff; repeat split; auto using coh_ents_aset.
 Qed.
